@@ -90,6 +90,8 @@ def cases(tier):
                 yield ('frame_values3', n, li, sh)
     for n in range(0, sc['n1'] + 1):
         yield ('label_sort', 'flat', n)
+    for n in (2, 3, 4):
+        yield ('grown_and_auto', n)
     for shape in ih_shapes(sc['ih_leaves']):
         yield ('label_sort', 'ih', shape)
 
@@ -431,8 +433,65 @@ def run_label_sort(case, ctx):
     ctx.sample({'family': 'label_sort', 'kind': kind, 'shape': shape, 'arrangements': len(label_sets)}, limit=1)
 
 
+def run_grown_and_auto(case, ctx):
+    '''(a) tables whose columns are int or float (NaN allowed) held by a Frame built at once and by a FrameGO grown column by column: sorting the columns
+    by a row (sort_values axis=0) and the rows by a column gives the reference arrangement for both; (b) containers with the auto-generated index:
+    sort_index with key functions.'''
+    _, n = case
+    alpha = (1, 0, NAN, -1.5)
+    cols_l = LABELS[:n]
+    for vec in itertools.product(alpha, repeat=n):
+        # column i = (key_i, 10 * i): int64 if the key is an int, float64 otherwise
+        arrays = [arr([v, 10 * i], 'int64' if isinstance(v, int) else 'float64') for i, v in enumerate(vec)]
+        f = sf.Frame.from_items(zip(cols_l, arrays), index=('k', 'o'), name='fn')
+        g = sf.FrameGO(index=('k', 'o'), name='fn')
+        for lab, a in zip(cols_l, arrays):
+            g[lab] = a
+        ctx.state(('grown', vec))
+        for asc in (True, False):
+            order = ref_order([(v,) for v in vec], asc)
+            exp = [cols_l[i] for i in order]
+            info = dict(key_row=vec, ascending=asc)
+            for tname, t in (('frame', f), ('grown-FrameGO', g)):
+                ctx.transition()
+                if order != list(range(n)):
+                    ctx.nontriv(('grown', vec, asc, tname))
+                try:
+                    r = t.sort_values('k', axis=0, ascending=asc)
+                    got = r.columns.values.tolist()
+                    cells = [norm(x) for x in r.loc['o'].values.tolist()]
+                    if got != exp or cells != [norm(10 * i) for i in order] and cells != [norm(float(10 * i)) for i in order]:
+                        ctx.violation(f'frame.sort_values|axis0|{tname}|columns-order', **info, got=got, expected=exp)
+                except Exception as e:
+                    ctx.violation(f'frame.sort_values|axis0|{tname}|raises|{type(e).__name__}', **info, error=repr(e))
+    # (b) auto-generated index
+    vals = [(i * 7) % 5 for i in range(n)]
+    fa = sf.Frame.from_items((('p', arr(vals, 'int64')), ('q', arr(['t%d' % i for i in range(n)], '<U2'))), name='fn')
+    sa = sf.Series(arr(vals, 'int64'), name='nm')
+    ga = fa.to_frame_go()
+    for kname, kfn, pk in (('neg', lambda ix: -ix.values, lambda i: -i), ('mod2', lambda ix: ix.values % 2, lambda i: i % 2), ('vals', lambda ix: np.array(vals), lambda i: vals[i])):
+        for asc in (True, False):
+            order = ref_order([(pk(i),) for i in range(n)], asc)
+            info = dict(n=n, key=kname, ascending=asc)
+            for tname, t in (('frame', fa), ('series', sa), ('framego', ga)):
+                ctx.transition()
+                ctx.nontriv(('auto', n, kname, asc, tname))
+                try:
+                    r = t.sort_index(ascending=asc, key=kfn)
+                    got = r.index.values.tolist()
+                    gv = (r.values.tolist() if tname == 'series' else r['p'].values.tolist())
+                    if got != order or gv != [vals[i] for i in order]:
+                        ctx.violation(f'{tname}.sort_index|auto-index|key-function|order', **info, got=got, expected=order)
+                except Exception as e:
+                    ctx.violation(f'{tname}.sort_index|auto-index|key-function|raises|{type(e).__name__}', **info, error=repr(e))
+    ctx.outcome('grown_and_auto')
+    ctx.sample({'family': 'grown_and_auto', 'n': n}, limit=1)
+
+
 def run_case(case, ctx):
     fam = case[0]
+    if fam == 'grown_and_auto':
+        return run_grown_and_auto(case, ctx)
     if fam == 'series_values':
         run_series_values(case, ctx)
     elif fam == 'index_sort':
